@@ -1,7 +1,9 @@
 //! Correspondence harness: runs the real rustyline code on generated requests and prints
 //! `request<TAB>observation` lines (preceded by the `charinfo` lines the request needs).
 mod common;
+mod ed;
 mod hist;
+mod pty;
 
 use common::CharInfoEmitter;
 use std::io::{BufRead, Write};
@@ -18,6 +20,7 @@ fn exec_line(req: &str) -> String {
     let f: Vec<&str> = req.split(' ').collect();
     let r = catch_unwind(AssertUnwindSafe(|| match f.first().copied() {
         Some("hist") => hist::exec(&f[1..]),
+        Some("ed") => ed::exec(&f[1..]),
         _ => None,
     }));
     match r {
@@ -31,8 +34,13 @@ fn main() {
     // keep panic messages off stderr: panics are observations here
     std::panic::set_hook(Box::new(|_| {}));
     let args: Vec<String> = std::env::args().collect();
-    let stdout = std::io::stdout();
-    let mut out = std::io::BufWriter::new(stdout.lock());
+    // the protocol streams are moved away from fd 0/1: the editor targets re-plumb those onto a pty
+    use std::os::unix::io::FromRawFd;
+    let (in_fd, out_fd) = unsafe { (libc::dup(0), libc::dup(1)) };
+    pty::ignore_job_control();
+    let proto_in = unsafe { std::fs::File::from_raw_fd(in_fd) };
+    let proto_out = unsafe { std::fs::File::from_raw_fd(out_fd) };
+    let mut out = std::io::BufWriter::new(proto_out);
     let mut ci = CharInfoEmitter::default();
     let mut emit = |req: String, out: &mut dyn Write| {
         for l in ci.lines_for(&req) {
@@ -77,6 +85,7 @@ fn main() {
             };
             match target.as_str() {
                 "hist" => hist::gen(&ctx, &mut sink),
+                "ed" => ed::gen(&ctx, &mut sink),
                 _ => {
                     eprintln!("unknown target");
                     std::process::exit(2)
@@ -84,8 +93,7 @@ fn main() {
             }
         }
         Some("exec") => {
-            let stdin = std::io::stdin();
-            for line in stdin.lock().lines() {
+            for line in std::io::BufReader::new(proto_in).lines() {
                 let line = line.unwrap();
                 let req = line.split('\t').next().unwrap().to_string();
                 if req.is_empty() || req.starts_with("charinfo ") {
